@@ -201,7 +201,7 @@ def _extract(b: Built):
     b.summary = (
         f"ok mbt={assoc(mbt)} tbm={assoc(tbm)} "
         f"cgr={','.join(f'{a}-{c}' for a, c in edges) if edges else '-'} "
-        f"ccs={'|'.join(_lst(c) for c in ccl) if ccl else '-'} vo=1 hyp=1"
+        f"ccs={'|'.join(_lst(c) for c in ccl) if ccl else '-'} vo=1 hyp=1 rdl=1"
     )
     b.mbt, b.tbm, b.edges, b.ccs = dict(mbt), dict(tbm), edges, ccl  # type: ignore
 
